@@ -154,6 +154,8 @@ func Alphabet(S int) []Op {
 			ops = append(ops, Op{Kind: "ReadFrom", K: x.k, Chunk: c, Rel: x.n})
 		}
 	}
+	// chunk -3: the source is a *bytes.Reader (it offers WriteTo, Len, ReadByte besides Read)
+	ops = append(ops, Op{Kind: "ReadFrom", K: S + 1, Chunk: -3, Rel: "S+1"})
 	for _, x := range []struct {
 		k int
 		n string
@@ -255,12 +257,18 @@ func (s *Session) Apply(o Op) *explore.Fail {
 		s.Dirty = true
 	case "ReadFrom":
 		src := env.NewSrc(Gen(s.pos, o.K))
-		if o.Chunk < 0 {
+		switch {
+		case o.Chunk == -3:
+		case o.Chunk < 0:
 			src.WithLast = true
-		} else {
+		default:
 			src.Policy = env.FixedChunk(o.Chunk)
 		}
-		n, err = w.ReadFrom(src)
+		if o.Chunk == -3 {
+			n, err = w.ReadFrom(bytes.NewReader(src.Data))
+		} else {
+			n, err = w.ReadFrom(src)
+		}
 		if err == nil && int(n) != o.K {
 			return explore.Failf("ReadFrom-short-count", "ReadFrom(%d) returned %d, nil", o.K, n)
 		}
